@@ -224,6 +224,11 @@ def one_dataset(obs, rng, conv, spec, ctx):
         obs.cls('dataset-with-holes')
     if model.invalid_cells:
         obs.cls('dataset-with-bow-tie')
+    if not plotted:
+        # no cell has geometry at all: nothing to plot, "the plotted values" is an empty set and has no limits; the
+        # property decides nothing about such a dataset (emsarray raises from the empty reduction)
+        obs.cls('dataset-without-any-geometry-not-asserted')
+        return
     idx = numpy.array(plotted, dtype=int)
     hole_before = bool(holes) and bool(plotted) and min(holes) < max(plotted)
     shape_sig = (conv, face.shape, tuple(holes))
